@@ -293,8 +293,9 @@ func main() {
 		// ---- property oracle, evaluated on the implementation's outputs
 		in := map[string]interface{}{"in": c, "out": o}
 		// a round as the node can produce it: reward within the coin supply, votes
-		// non-negative and each at most the round total
-		wellFormed := c.Reward >= 0 && c.Reward <= 1<<55 && c.Total > 0
+		// non-negative and each at most the round total (a zero total is a round without
+		// votes), a configured arbiter count that is not zero
+		wellFormed := c.Reward >= 0 && c.Reward <= 1<<55 && c.Total >= 0 && c.CRCCount+c.NormalCount > 0
 		var sumVotes big.Int
 		for _, v := range c.Votes {
 			if v < 0 || v > c.Total {
@@ -303,22 +304,17 @@ func main() {
 			sumVotes.Add(&sumVotes, big.NewInt(v))
 		}
 		if o.Verdict == "ROk" {
-			zeroVotes := c.Total == 0 && !early
-			sig := func(s string) string {
-				if zeroVotes {
-					return s + ":zero-total-votes"
-				}
-				if !wellFormed {
-					return s + ":malformed-round" // negative reward / votes: not a reachable round, recorded in the histogram only
-				}
-				return s
-			}
 			report := func(s, what string) {
-				if !wellFormed && !zeroVotes {
+				if !wellFormed {
+					// negative reward / votes above the total / zero configured arbiters: not a
+					// round the node can produce; recorded in the histogram only
 					st.Hist["malformed:"+s]++
 					return
 				}
-				st.Fail(sig(s), what, in)
+				if c.Total == 0 {
+					s += ":zero-total-votes"
+				}
+				st.Fail(s, what, in)
 			}
 			if o.Change < 0 {
 				report("distributeDPOSReward:negative-change", "negative remainder returned")
